@@ -278,6 +278,9 @@ class KaniCrate:
         rc, out, secs, to = sh(["cargo", "kani", "--only-codegen", "-Z", "stubbing", "--target-dir", self.target],
                                cwd=self.dir, timeout=timeout, env=self.env())
         self.build_log = out
+        os.makedirs(os.path.join(CACHE, "logs"), exist_ok=True)
+        with open(os.path.join(CACHE, "logs", "build-%s.log" % os.path.basename(self.target)), "w") as f:
+            f.write(out)
         self.built = rc == 0
         self.build_seconds = secs
         return self.built
@@ -348,16 +351,12 @@ def playback(crate, harness, timeout=600, trace_cfg=True):
            "--target-dir", crate.target, "--harness", harness, "--exact"]
     rc, out, secs, to = sh(cmd, cwd=crate.dir, timeout=timeout, env=crate.env(), mem_gb=14)
     res["log"] = out[-4000:]
-    m = re.search(r"```\n(/// Test generated for harness.*?)```", out, re.S)
-    if not m:
-        m = re.search(r"```\n(#\[test\].*?)```", out, re.S)
-    if not m:
+    tests = re.findall(r"```\n((?:/// Test generated for harness|#\[test\]).*?)```", out, re.S)
+    # one test per failed check and per satisfied cover: replay the failed checks only
+    tests = [t for t in tests if "Check for `cover`" not in t] or []
+    if not tests:
         res["panic"] = "no concrete playback test produced"
         return res
-    test = m.group(1)
-    res["test_src"] = test
-    tname = re.search(r"fn (kani_concrete_playback_\w+)", test).group(1)
-    # locate the source file holding the harness and append the test to the same module
     short = harness.split("::")[-1]
     target_file = None
     for root, _, files in os.walk(os.path.join(crate.dir, "src")):
@@ -370,28 +369,33 @@ def playback(crate, harness, timeout=600, trace_cfg=True):
     if not target_file:
         res["panic"] = "harness source not found"
         return res
-    txt = open(target_file).read()
     marker = "// VERIF-PLAYBACK-INSERT"
-    if marker in txt:
-        txt = txt.replace(marker, test + "\n" + marker, 1)
-    else:
-        txt = txt + "\n" + test + "\n"
-    open(target_file, "w").write(txt)
-    env = crate.env()
-    env["RUSTFLAGS"] = (env.get("RUSTFLAGS", "") + " --cfg verif_playback").strip()
-    cmd = ["cargo", "kani", "playback", "-Z", "concrete-playback", "--", tname, "--nocapture"]
-    env["CARGO_TARGET_DIR"] = crate.target + "-playback"
-    rc, out, secs, to = sh(cmd, cwd=crate.dir, timeout=timeout, env=env)
-    res["log"] += "\n--- playback ---\n" + out[-6000:]
-    for m in re.finditer(r"^TRACE (\w+)=(.*)$", out, re.M):
-        res["trace"][m.group(1)] = m.group(2).strip()
-    pm = re.search(r"panicked at (.*?)(?:\nnote:|\n\n|\Z)", out, re.S)
-    if pm and ("test result: FAILED" in out or "FAILED" in out):
-        res["reproduced"] = True
-        res["panic"] = " ".join(pm.group(1).split())[:400]
-    # remove the inserted test again so later runs are unaffected
-    txt = open(target_file).read().replace(test + "\n", "", 1)
-    open(target_file, "w").write(txt)
+    for test in tests[:3]:
+        res["test_src"] = test
+        tname = re.search(r"fn (kani_concrete_playback_\w+)", test).group(1)
+        orig = open(target_file).read()
+        if marker in orig:
+            txt = orig.replace(marker, test + "\n" + marker, 1)
+        else:
+            txt = orig + "\n" + test + "\n"
+        open(target_file, "w").write(txt)
+        env = crate.env()
+        env["RUSTFLAGS"] = (env.get("RUSTFLAGS", "") + " --cfg verif_playback").strip()
+        cmd = ["cargo", "kani", "playback", "-Z", "concrete-playback", "--", tname, "--nocapture"]
+        env["CARGO_TARGET_DIR"] = crate.target + "-playback"
+        rc, out2, secs, to = sh(cmd, cwd=crate.dir, timeout=timeout, env=env)
+        open(target_file, "w").write(orig)
+        res["log"] += "\n--- playback %s ---\n" % tname + out2[-6000:]
+        res["trace"] = {}
+        for m in re.finditer(r"^TRACE (\w+)=(.*)$", out2, re.M):
+            res["trace"][m.group(1)] = m.group(2).strip()
+        pm = re.search(r"panicked at (.*?)(?:\nnote:|\nstack backtrace|\n\n|\Z)", out2, re.S)
+        if pm and "test result: FAILED" in out2:
+            res["reproduced"] = True
+            res["panic"] = " ".join(pm.group(1).split())[:300]
+            m2 = re.search(r"Check for `\w+`: \"?(.*?)\"?\n", test)
+            res["check"] = m2.group(1) if m2 else ""
+            return res
     return res
 
 
